@@ -75,22 +75,58 @@ def check_signatures(sigs, nmol, mult):
 # ---------------------------------------------------------------------------
 # operators
 # ---------------------------------------------------------------------------
+H_KINDS = ("diag", "move", "inband-zero", "interband")
+D_KINDS = ("adjacent-one", "adjacent-zero", "same-band", "distant")
+_STRUCTURE = {}
+
+
+def structure(states):
+    """Combinatorial structure of an ordered list of excitation sets (cached):
+    moves = rows (a, b, k, l): state b is state a with the excitation moved from k to l;
+    adds  = rows (a, b, k):    state b is state a plus an excitation on molecule k;
+    hkind / dkind = integer matrices indexing H_KINDS / D_KINDS for every pair of states."""
+    key = tuple(tuple(s) for s in states)
+    st = _STRUCTURE.get(key)
+    if st is not None:
+        return st
+    n = len(key)
+    ssets = [frozenset(s) for s in key]
+    moves, adds = [], []
+    hkind = numpy.zeros((n, n), dtype=int)
+    dkind = numpy.zeros((n, n), dtype=int)
+    for a in range(n):
+        for b in range(n):
+            hkind[a, b] = H_KINDS.index(classify_pair(ssets[a], ssets[b]))
+            dkind[a, b] = D_KINDS.index(classify_dipole_pair(ssets[a], ssets[b]))
+            if a == b:
+                continue
+            if len(ssets[a]) == len(ssets[b]):
+                gone = ssets[a] - ssets[b]
+                come = ssets[b] - ssets[a]
+                if len(gone) == 1 and len(come) == 1:
+                    moves.append((a, b, tuple(gone)[0], tuple(come)[0]))
+            elif len(ssets[b]) == len(ssets[a]) + 1 and ssets[a] < ssets[b]:
+                adds.append((a, b, tuple(ssets[b] - ssets[a])[0]))
+    st = {"moves": numpy.array(moves, dtype=int).reshape(-1, 4),
+          "adds": numpy.array(adds, dtype=int).reshape(-1, 3),
+          "hkind": hkind, "dkind": dkind,
+          "bands": numpy.array([len(s) for s in key], dtype=int)}
+    if len(_STRUCTURE) > 4096:
+        _STRUCTURE.clear()
+    _STRUCTURE[key] = st
+    return st
+
+
 def hamiltonian(energies, coupling, states):
     """Frenkel Hamiltonian on the given ordered list of excitation sets."""
     n = len(states)
     hh = numpy.zeros((n, n), dtype=float)
-    ssets = [frozenset(s) for s in states]
-    for a in range(n):
-        hh[a, a] = sum(float(energies[k]) for k in ssets[a])
-        for b in range(n):
-            if a == b or len(ssets[a]) != len(ssets[b]):
-                continue
-            gone = ssets[a] - ssets[b]
-            come = ssets[b] - ssets[a]
-            if len(gone) == 1 and len(come) == 1:
-                (k,) = tuple(gone)
-                (l,) = tuple(come)
-                hh[a, b] = float(coupling[k][l])
+    for a, s in enumerate(states):
+        hh[a, a] = sum(float(energies[k]) for k in s)
+    mv = structure(states)["moves"]
+    if mv.shape[0]:
+        jj = numpy.asarray(coupling, dtype=float)
+        hh[mv[:, 0], mv[:, 1]] = jj[mv[:, 2], mv[:, 3]]
     return hh
 
 
@@ -111,16 +147,11 @@ def dipole_operator(dipoles, states):
     """Transition-dipole operator (n, n, 3) on the given ordered list of excitation sets."""
     n = len(states)
     dd = numpy.zeros((n, n, 3), dtype=float)
-    ssets = [frozenset(s) for s in states]
-    for a in range(n):
-        for b in range(n):
-            if len(ssets[b]) != len(ssets[a]) + 1:
-                continue
-            if not ssets[a] < ssets[b]:
-                continue
-            (k,) = tuple(ssets[b] - ssets[a])
-            dd[a, b, :] = numpy.asarray(dipoles[k], dtype=float)
-            dd[b, a, :] = dd[a, b, :]
+    ad = structure(states)["adds"]
+    if ad.shape[0]:
+        dv = numpy.asarray(dipoles, dtype=float)
+        dd[ad[:, 0], ad[:, 1], :] = dv[ad[:, 2], :]
+        dd[ad[:, 1], ad[:, 0], :] = dv[ad[:, 2], :]
     return dd
 
 
